@@ -249,3 +249,32 @@ Definition wf_vis (d : cdiagram) : bool := forallb (fun c => forallb vis3 (c_ops
 
 Definition name_ok (c : cls) : bool := no_char "." (c_name c) && no_char "/" (c_name c) && negb (String.eqb (c_name c) "").
 Definition generated (c : cls) : bool := match kind_of c with KNone => false | _ => true end.
+
+(* ---------------------------------------------------------------- every operation once *)
+
+(* the classes GetOperationPerVisibility visits from c, in the order their operations are emitted, WITH multiplicity: an
+   interface reached through two realisation paths occurs twice (and its operations are emitted twice: K-C19-1b) *)
+Fixpoint visited (fuel : nat) (d : cdiagram) (realizing : string) (c : cls) : option (list cls) :=
+  match fuel with
+  | O => None
+  | S f =>
+      match parents_of d realizing c with
+      | None => None
+      | Some ps =>
+          match collect (map (visited f d (if String.eqb realizing "" then c_name c else realizing)) ps) with
+          | None => None
+          | Some rs => Some (List.concat rs ++ [c])%list
+          end
+      end
+  end.
+
+Fixpoint keys_nodup (l : list (string * list string * bool)) : bool :=
+  match l with [] => true | k :: r => negb (existsb (key_eqb k) r) && keys_nodup r end.
+
+(* "no operation is reached through two paths": the class declares no signature twice, and among the operations of the
+   interfaces it realises -- directly or through other interfaces, every path counted -- no signature occurs twice *)
+Definition once_hyp (d : cdiagram) (c : cls) : bool :=
+  match visited (List.length (classes d)) d "" c with
+  | Some vs => keys_nodup (declared_of c) && keys_nodup (flat_map declared_of (removelast vs))
+  | None => false
+  end.
